@@ -1,4 +1,4 @@
-"""C05 - invariance under keyword case (lexer / actions); whitespace and line layout are declined (DESIGN 4, C05)."""
+"""C05 - invariance under keyword case (lexer / actions) and under line layout (E7 line machine; DESIGN 4 C05, 9.8)."""
 import ast
 
 from ..cfg import guard_atoms
@@ -22,8 +22,14 @@ def run(ck, ctx):
         "position (resolved per grammar alternative) with an alphabetic literal without normalising, (T-CASE-VALUE) the only "
         "case-changing store to a token value is guarded by type != ID, (T-CASE-LINE) the statement-level words are matched "
         "against the upper-cased line. Glued comma: for every (flags, word) visited by the fixed points, the word with a trailing "
-        "comma is typed and valued as the word alone. Whitespace amount / kind, CRLF, blank lines and line-break positions are "
-        "decided by regexes over the run-time text and are declined.")
+        "comma is typed and valued as the word alone. Line layout (E7, O-line / O-form): Parser.process_line is evaluated abstractly on "
+        "line classes in every reachable state of the line machine - a continuation line (incl. lines whose first word merely begins "
+        "like CREATE / SET / GO / USE ... or starts with a comma / parenthesis / keyword) is appended verbatim with one blank, a line "
+        "ending with ';' hands over the assembled text without the ';' and clears the register, a blank line does nothing, leading and "
+        "trailing blanks of a line do not matter - so by induction the statement text handed to the grammar is the same (up to blanks) "
+        "wherever the line breaks fall; and everything parse_data does before the line loop is evaluated on exemplar scripts: CRLF vs "
+        "LF, tabs vs blanks, amount of blanks, glued vs spaced commas / parentheses, blank lines, trailing blanks, missing final newline "
+        "give the same lines.")
     visited = set()
     frs = [("table", dict(label="constraints", constraints=True, set_null=False)), ("sequence", {})]
     frs += [("clauses", dict(group=g)) for g in GROUPS]
@@ -128,9 +134,17 @@ def run(ck, ctx):
             alts = set(mt.group(1).split("|")) if mt else None
             ck.ob("T-LINE.words", "skipped line starts are exactly GO / USE / INSERT / GRANT / DELETE as whole words", alts is not None and alts <= SKIPPED,
                   f"pattern {pat!r}", init.loc(n))
-    ck.assumptions += ["words are separated as pre_process_data intends; whitespace amount / kind, glued separators, CRLF, blank lines and "
-                       "line-break positions are decided by regexes and split() over the run-time text (L1) and are NOT decided here",
-                       "statement assembly by lines (check_new_statement_start on run-time text) is declined"]
+    # ---- E7: line layout.  Per-line laws of the line machine + line formation
+    from ..specs import lines as L
+    lmach = L.check_layout_laws(ck, ctx)
+    L.check_line_formation(ck, ctx, lmach)
+    ck.floor("O-line", 30)
+    ck.floor("O-form", 20)
+    ck.assumptions += ["line layout is decided at line-class level (E7): the laws are shown for the listed classes of continuation / final / "
+                       "blank / padded lines in every reachable state of the line machine, and line formation for the listed exemplar scripts "
+                       "and layout variants; layout invariance for `;`-terminated statements follows by induction over the lines",
+                       "lines starting with a statement-level word inside a statement are excluded by the property itself",
+                       "blanks inside string literals and the spacing the pre-processor applies inside literals are C07's concern"]
 
 
 def _vals(r, wc):
